@@ -11,6 +11,192 @@ use std::collections::HashMap;
 
 pub struct C14;
 
+type Span = (u32, u32, u32, u32);
+
+fn span(l: &Location) -> Span {
+  (l.start.0, l.start.1, l.end.0, l.end.1)
+}
+
+/// Part B of the property: the positions the language server *returns* (definition and reference
+/// results, hover ranges, folding ranges) judged against the text the server currently holds.
+/// `shift` = (module index, n): the server is started with n comment lines in front of that module
+/// and then updated to the real text, so that a result computed from a stale tree is displaced.
+pub fn lsp_results(mods: &super::run_common::Mods, shift: Option<(usize, usize)>, max_queries: usize, out: &mut Outcome) {
+  use crate::engine::guard;
+  use samlang_ast::Position;
+  use samlang_services::query;
+  let mut initial = mods.clone();
+  if let Some((k, n)) = shift
+    && k < initial.len()
+  {
+    initial[k].1 = format!("{}{}", "// pad\n".repeat(n), initial[k].1);
+  }
+  let mut srv = match super::c15::server_for(&initial) {
+    Ok(s) => s,
+    Err(_) => {
+      out.label("lsp:server-panics-on-start(C11)");
+      return;
+    }
+  };
+  if let Some((k, _)) = shift
+    && k < mods.len()
+  {
+    let mr = srv.mrs[&mods[k].0.join(".")];
+    let text = mods[k].1.clone();
+    if guard(std::panic::AssertUnwindSafe(|| srv.state.update(vec![(mr, text)]))).is_err() {
+      out.label("lsp:server-panics-on-update(C11)");
+      return;
+    }
+    out.label("lsp:queried-after-displacing-update");
+  }
+  // the texts the server holds, by module
+  struct Doc {
+    name: String,
+    text: String,
+    lines: Vec<u32>,
+    offs: Vec<usize>,
+  }
+  let docs: HashMap<samlang_heap::ModuleReference, Doc> = srv
+    .state
+    .string_sources
+    .iter()
+    .map(|(mr, text)| (*mr, Doc { name: mr.pretty_print(&srv.state.heap), text: text.clone(), lines: line_lengths(text), offs: line_offsets(text) }))
+    .collect();
+  // a returned location: known module, inside that module's text; gives back its text slice
+  let judge = |l: &Location, what: &str, out: &mut Outcome| -> Option<String> {
+    let Some(d) = docs.get(&l.module_reference) else {
+      out.fail(format!("lsp-location/unknown-module/{what}"), format!("{what} result {} names a module the server holds no text for", loc_str(l)));
+      return None;
+    };
+    if let Some(v) = loc_in_doc(l, &d.lines) {
+      out.fail(format!("lsp-location/{v}/{what}"), format!("{what} result {} lies outside module {} ({} lines)\n{}", loc_str(l), d.name, d.lines.len(), short(&d.text, 600)));
+      return None;
+    }
+    match slice(&d.text, &d.offs, l) {
+      Some(s) => Some(s.to_string()),
+      None => {
+        out.fail(format!("lsp-location/not-on-character-boundary/{what}"), format!("{what} result {} of module {} splits a character", loc_str(l), d.name));
+        None
+      }
+    }
+  };
+  let mut queries = 0usize;
+  for (name, text) in mods {
+    let mr = srv.mrs[&name.join(".")];
+    let toks: Vec<_> = tokenize(text).into_iter().filter(|t| matches!(t.kind, Kind::Upper | Kind::Lower)).collect();
+    let stride = (toks.len() / max_queries.max(1)).max(1);
+    for (ti, t) in toks.iter().enumerate() {
+      if ti % stride != 0 || t.end_line != t.line {
+        continue;
+      }
+      queries += 1;
+      // first or last character of the identifier, alternating
+      let col = if ti % 2 == 0 { t.col } else { t.end_col.saturating_sub(1).max(t.col) };
+      let pos = Position(t.line, col);
+      let class = if t.kind == Kind::Upper { "upper" } else { "lower" };
+      // find references: every result spells the queried name at its start, results nest or are disjoint
+      match guard(|| query::all_references(&srv.state, &mr, pos)) {
+        Err(_) => out.label("lsp:query-panics(C11)"),
+        Ok(refs) => {
+          if !refs.is_empty() {
+            out.label(format!("lsp:references-nonempty:{class}"));
+          }
+          let mut own: Vec<Span> = vec![];
+          for r in &refs {
+            let Some(s) = judge(r, "reference", out) else { continue };
+            let exact = s == t.text;
+            let prefix = s.starts_with(t.text.as_str()) && !s[t.text.len()..].chars().next().is_some_and(|c| c.is_alphanumeric() || c == '_');
+            if !exact && !prefix {
+              out.fail(
+                format!("lsp-location/reference-does-not-spell-name/{class}"),
+                format!("find-references on `{}` at {}:{} of {} returned {} in {} which spells {:?}\n{}", t.text, t.line + 1, col + 1, name.join("."), loc_str(r), docs[&r.module_reference].name, short(&s, 80), short(text, 600)),
+              );
+            }
+            out.label(if exact { "lsp:reference-spells-name-exactly" } else { "lsp:reference-starts-with-name" });
+            if r.module_reference == mr {
+              own.push(span(r));
+            }
+          }
+          own.sort();
+          for w in own.windows(2) {
+            let (a, b) = (w[0], w[1]);
+            let disjoint = (a.2, a.3) <= (b.0, b.1);
+            let nested = (b.2, b.3) <= (a.2, a.3);
+            if !disjoint && !nested {
+              out.fail(format!("lsp-location/references-overlap/{class}"), format!("find-references on `{}` returned partially overlapping ranges {:?} and {:?}\n{}", t.text, a, b, short(text, 600)));
+            }
+          }
+          if !refs.is_empty() {
+            let hit = own.iter().any(|s| (s.0, s.1) <= (pos.0, pos.1) && (pos.0, pos.1) <= (s.2, s.3));
+            out.label(if hit { "lsp:references-include-queried-occurrence" } else { "lsp:references-without-queried-occurrence" });
+          }
+        }
+      }
+      // go to definition: inside its module; a range of the name's length must spell the name, a larger one must contain it
+      match guard(|| query::definition_location(&srv.state, &mr, pos)) {
+        Err(_) => out.label("lsp:query-panics(C11)"),
+        Ok(None) => {}
+        Ok(Some(d)) => {
+          out.label(format!("lsp:definition-found:{class}"));
+          if let Some(s) = judge(&d, "definition", out) {
+            let has_name = tokenize(&s).iter().any(|x| x.text == t.text);
+            if !has_name {
+              out.fail(
+                format!("lsp-location/definition-does-not-contain-name/{class}"),
+                format!("go-to-definition on `{}` at {}:{} of {} returned {} in {} which spells {:?}\n{}", t.text, t.line + 1, col + 1, name.join("."), loc_str(&d), docs[&d.module_reference].name, short(&s, 120), short(text, 600)),
+              );
+            }
+          }
+        }
+      }
+      // hover: the reported range is inside the document and contains the queried position
+      match guard(|| query::hover(&srv.state, &mr, pos).map(|h| h.location)) {
+        Err(_) => out.label("lsp:query-panics(C11)"),
+        Ok(None) => {}
+        Ok(Some(h)) => {
+          out.label("lsp:hover-found");
+          if judge(&h, "hover", out).is_some() && (h.module_reference != mr || !(h.start <= pos && pos <= h.end)) {
+            out.fail("lsp-location/hover-range-misses-position".to_string(), format!("hover at {}:{} of {} reports range {}\n{}", t.line + 1, col + 1, name.join("."), loc_str(&h), short(text, 600)));
+          }
+        }
+      }
+    }
+    // folding ranges: inside the document, nested or disjoint, each starts at a declaration keyword
+    if let Ok(Some(folds)) = guard(|| query::folding_ranges(&srv.state, &mr)) {
+      let all_toks = tokenize(text);
+      let by_start: HashMap<(u32, u32), &str> = all_toks.iter().filter(|t| !t.is_comment()).map(|t| ((t.line, t.col), t.text.as_str())).collect();
+      let mut spans: Vec<Span> = vec![];
+      for f in &folds {
+        if f.module_reference != mr {
+          out.fail("lsp-location/folding-range-of-other-module".to_string(), format!("folding range {} of {} names another module", loc_str(f), name.join(".")));
+          continue;
+        }
+        if judge(f, "folding-range", out).is_none() {
+          continue;
+        }
+        match by_start.get(&(f.start.0, f.start.1)) {
+          Some(k) if ["private", "class", "interface", "function", "method"].contains(k) => {}
+          other => out.fail("lsp-location/folding-range-start".to_string(), format!("folding range {} of {} starts at token {:?}\n{}", loc_str(f), name.join("."), other, context(text, f))),
+        }
+        spans.push(span(f));
+      }
+      out.label(format!("lsp:folding-ranges:{}", if spans.is_empty() { "0" } else if spans.len() < 4 { "1-3" } else { ">=4" }));
+      spans.sort_by_key(|s| ((s.0, s.1), std::cmp::Reverse((s.2, s.3))));
+      for i in 0..spans.len() {
+        for j in i + 1..spans.len() {
+          let (a, b) = (spans[i], spans[j]);
+          let disjoint = (a.2, a.3) <= (b.0, b.1);
+          let nested = (a.0, a.1) <= (b.0, b.1) && (b.2, b.3) <= (a.2, a.3);
+          if !disjoint && !nested {
+            out.fail("lsp-location/folding-ranges-overlap".to_string(), format!("folding ranges {:?} and {:?} of {} partially overlap\n{}", a, b, name.join("."), short(text, 600)));
+          }
+        }
+      }
+    }
+  }
+  out.label(format!("lsp:queries:{}", if queries == 0 { "0" } else if queries < 20 { "1-19" } else { ">=20" }));
+}
+
 pub fn loc_str(l: &Location) -> String {
   format!("{}:{}-{}:{}", l.start.0 + 1, l.start.1 + 1, l.end.0 + 1, l.end.1 + 1)
 }
@@ -114,7 +300,7 @@ impl Prop for C14 {
     "C14"
   }
   fn rule(&self) -> String {
-    "syntactically valid modules (G5) with adversarial layout (tabs, CRLF, blank lines, tight punctuation, multi-line block comments, strings containing // and /*, non-ASCII in strings and comments, very long lines) plus every tests/*.sam and std/*.sam; oracle for every location in the parsed tree: inside the document (line < #lines, byte column <= line length), start <= end, enclosed by the parent's location, elements of one syntactic list ordered and disjoint, and for every name the text slice at its location equals the name; the harness's own tokenizer supplies the ground-truth positions of identifier tokens (every identifier token must be the location of some name node and vice versa); also every syntax-error location when the input is a mutilated variant; non-trivial = >=3 lines and a multi-line comment, CRLF, tab or non-ASCII byte precedes some identifier; distinct = hash of the text".into()
+    "syntactically valid modules (G5) with adversarial layout (tabs, CRLF, blank lines, tight punctuation, multi-line block comments, strings containing // and /*, non-ASCII in strings and comments, very long lines) plus every tests/*.sam and std/*.sam; oracle for every location in the parsed tree: inside the document (line < #lines, byte column <= line length), start <= end, enclosed by the parent's location, elements of one syntactic list ordered and disjoint, and for every name the text slice at its location equals the name; the harness's own tokenizer supplies the ground-truth positions of identifier tokens (every identifier token must be the location of some name node and vice versa); also every syntax-error location when the input is a mutilated variant; part B (results of the language server, judged against the text the server currently holds): 1 case in 14 is an accepted multi-module G1 program, and a sixth of the valid G5 texts is loaded as well, into a ServerState - in half of them the server is started with 1-5 comment lines in front of one module and then updated to the real text, so that a result computed from a stale tree is displaced; at up to 120 identifier tokens (first / last character) find-references, go-to-definition and hover are queried and every returned location must name a module the server holds, lie inside that module's text on character boundaries with start <= end; a reference must spell the queried name (exactly, or as the head of the construct it starts, e.g. `Name<T>`), references of one query must nest or be disjoint, a definition range must contain the name as a token, a hover range must contain the queried position; folding ranges must lie inside the document, start at a declaration keyword and nest or be disjoint; non-trivial = >=3 lines and a multi-line comment, CRLF, tab or non-ASCII byte precedes some identifier; distinct = hash of the text".into()
   }
   fn assumptions(&self) -> Vec<String> {
     vec![
@@ -129,6 +315,18 @@ impl Prop for C14 {
     }
   }
   fn generate(&self, t: &mut Tape, tier: Tier) -> Value {
+    // part B hosts: accepted multi-module programs (G1) queried through the language server
+    if t.bool(1, 14) {
+      let mut cfg = super::behav::cfg_for("C14", tier);
+      cfg.force_hof = t.bool(1, 3);
+      let (ir, feats) = crate::generators::progen::gen_program(t, cfg);
+      let mods = ir.render();
+      let shift = if t.bool(1, 2) { json!([t.choose(mods.len().max(1)), 1 + t.choose(5)]) } else { Value::Null };
+      let mut v = super::run_common::art_of(&mods, &ir.entry, &feats);
+      v["lsp"] = json!(true);
+      v["shift"] = shift;
+      return v;
+    }
     let mut v = gen_text(t, tier, Profile::Layout);
     // a fraction of the cases is truncated / mutilated so that diagnostics locations are exercised
     if t.bool(1, 5) {
@@ -147,6 +345,16 @@ impl Prop for C14 {
   }
   fn check(&self, art: &Value) -> Outcome {
     let mut out = Outcome::default();
+    if art["lsp"].as_bool() == Some(true) {
+      let (mods, _) = super::run_common::mods_of(art);
+      let shift = art["shift"].as_array().map(|a| (a[0].as_u64().unwrap_or(0) as usize, a[1].as_u64().unwrap_or(1) as usize));
+      out.key = fnv(format!("{}{}", super::run_common::describe(&mods), art["shift"]).as_bytes());
+      out.label("host:G1-program-in-language-server");
+      lsp_results(&mods, shift, 120, &mut out);
+      out.nontrivial = mods.len() >= 2 || mods.iter().any(|(_, t)| t.lines().count() >= 10);
+      out.sample = Some(json!({"modules": mods.len(), "shift": art["shift"], "text": short(&super::run_common::describe(&mods), 400)}));
+      return out;
+    }
     let text = art["text"].as_str().unwrap_or("");
     out.key = fnv(text.as_bytes());
     let p0 = match front::parse(text, &["Test"]) {
@@ -271,6 +479,11 @@ impl Prop for C14 {
             out.fail("ast-location/boundary-token-mismatch/literal".to_string(), format!("literal at {} does not cover exactly one literal token\n{}", loc_str(&nd.loc), context(text, &nd.loc)));
           }
         }
+      }
+      if out.key % 6 == 0 && art["mutilated"].as_bool() != Some(true) {
+        out.label("host:G5-text-in-language-server");
+        let shift = if out.key % 12 == 0 { Some((0, 1 + (out.key % 5) as usize)) } else { None };
+        lsp_results(&vec![(vec!["Test".to_string()], text.to_string())], shift, 60, &mut out);
       }
       let interesting_layout = text.contains("\r\n") || text.contains('\t') || !text.is_ascii() || toks.iter().any(|t| t.is_comment() && t.end_line > t.line);
       out.nontrivial = lines.len() >= 3 && interesting_layout;
